@@ -27,7 +27,7 @@ NormQuery(j) == [v |-> j.v, groups |-> [n \in DOMAIN j.groups |-> NormGroup(j.gr
                  policy |-> j.policy, root_required |-> DOMAIN j.root_required,
                  root_forbidden |-> DOMAIN j.root_forbidden,
                  same_subtree |-> SetSeq(j.same_subtree), limit |-> j.limit]
-NormFilter(j) == [name |-> j.name, uuid |-> j.uuid, in_tree |-> j.in_tree,
+NormFilter(j) == [name |-> j.name, has_name |-> j.has_name, uuid |-> j.uuid, in_tree |-> j.in_tree,
                   member_of |-> SetSeq(j.member_of), forbidden_aggs |-> DOMAIN j.forbidden_aggs,
                   required |-> SetSeq(j.required), forbidden |-> DOMAIN j.forbidden,
                   resources |-> j.resources]
